@@ -144,6 +144,7 @@ def run_dataset(case, ctx):
                         f"{iface}: process_record called "
                         f"{iter_common.calls()} times for {n} examples")
             ctx.count("reads")
+            ctx.evaluated()
             ctx.label("iface=" + iface, "shuffle" + shuffle_class(shuffle, n),
                       "fp" + fp_class(fp, s))
             if s >= 2 and (shuffle > 0 or fp > 1 or b.nested):
